@@ -486,3 +486,25 @@ mut("C11", "r2-escape-after-quotes", "database/query/parser.go",
     "\t\t// wait for parenthesis to be overs\n\t\tif inParenthesis {\n\t\t\tif char == '\"' {\n\t\t\t\tsnippets = append(snippets, &snippet{\n\t\t\t\t\ttext:           prepToken(text[start+1 : pos]),\n\t\t\t\t\tglobalPosition: start + 1,\n\t\t\t\t})\n\t\t\t\tstart = -1\n\t\t\t\tinParenthesis = false\n\t\t\t}\n\t\t\tcontinue\n\t\t}\n\n\t\tif char == '\\\\' {\n\t\t\tskip = true\n\t\t}\n", "C11-R2|escape handling before quote handling")
 mut("C11", "r3-last-token-pos-plus-one", "database/query/parser.go",
     "\t\t\ttext:           prepToken(text[start:]),", "\t\t\ttext:           prepToken(text[start : pos+1]),", "C11-R3|text[..:pos+1]", comment="reverts fix 8bbd7a4")
+
+# ---- C17 -------------------------------------------------------------------
+mut("C17", "r1-no-sync", "utils/renameio/tempfile.go",
+    "\tif err := t.Sync(); err != nil {\n\t\treturn err\n\t}\n", "", "C17-R1|", canary=True)
+mut("C17", "r1-rename-before-close", "utils/renameio/tempfile.go",
+    "\tt.closed = true\n\tif err := t.Close(); err != nil {\n\t\treturn err\n\t}\n\tif err := os.Rename(t.Name(), t.path); err != nil {\n\t\treturn err\n\t}", "\tif err := os.Rename(t.Name(), t.path); err != nil {\n\t\treturn err\n\t}\n\tt.closed = true\n\tif err := t.Close(); err != nil {\n\t\treturn err\n\t}", "C17-R1|rename")
+mut("C17", "r1-sync-error-ignored", "utils/renameio/tempfile.go",
+    "\tif err := t.Sync(); err != nil {\n\t\treturn err\n\t}\n", "\t_ = t.Sync()\n", "C17-R1|")
+mut("C17", "r1-cleanup-removes-always", "utils/renameio/tempfile.go",
+    "\tif t.done {\n\t\treturn nil\n\t}\n", "", "C17-R1|Cleanup")
+mut("C17", "r2-fstree-writefile-direct", "database/storage/fstree/fstree.go",
+    "\t\terr = writeFile(dstPath, data, defaultFileMode)\n\t\tif err != nil {\n\t\t\treturn nil, fmt.Errorf(\"fstree: could not write file %s: %w\", dstPath, err)", "\t\terr = os.WriteFile(dstPath, data, defaultFileMode)\n\t\tif err != nil {\n\t\t\treturn nil, fmt.Errorf(\"fstree: could not write file %s: %w\", dstPath, err)", "C17-R2|fstree")
+mut("C17", "r2-atomic-helper-rename", "utils/atomic.go",
+    "\tif err := tmpFile.CloseAtomicallyReplace(); err != nil {\n\t\treturn fmt.Errorf(\"failed to rename temp file to %q\", dest)\n\t}", "\tif err := tmpFile.Close(); err != nil {\n\t\treturn err\n\t}\n\tif err := os.Rename(tmpFile.Name(), dest); err != nil {\n\t\treturn fmt.Errorf(\"failed to rename temp file to %q\", dest)\n\t}", "C17-R2|call os.Rename")
+mut("C17", "r3-no-deferred-cleanup", "utils/atomic.go",
+    "\tdefer tmpFile.Cleanup() //nolint:errcheck\n", "", "C17-R3|CreateAtomic / pending file / deferred Cleanup")
+mut("C17", "r3-success-without-publish", "utils/renameio/writefile.go",
+    "\treturn t.CloseAtomicallyReplace()", "\tif len(data) == 0 {\n\t\treturn nil\n\t}\n\treturn t.CloseAtomicallyReplace()", "C17-R3|success passes CloseAtomicallyReplace")
+mut("C17", "r4-length-check-relaxed", "updater/fetch.go",
+    "\tif resp.ContentLength != n {", "\tif resp.ContentLength >= 0 && resp.ContentLength != n {", "C17-R4|bytes written == Content-Length", occurrence=1)
+mut("C17", "r4-require-mismatch-published", "updater/fetch.go",
+    "\t\t\tcase SignaturePolicyRequire:\n\t\t\t\treturn errors.New(\"file does not match signed checksum\")", "\t\t\tcase SignaturePolicyRequire:\n\t\t\t\tlog.Errorf(\"%s: file does not match signed checksum\", reg.Name)", "C17-R4|checksum policy")
